@@ -10,13 +10,8 @@ import (
 	"fmt"
 	"os"
 
-	"verifharness/c14"
 	"verifharness/core"
 )
-
-var runners = map[string]func(*core.Ctx){
-	"C14": c14.Run,
-}
 
 func main() {
 	if len(os.Args) < 2 {
@@ -30,7 +25,13 @@ func main() {
 	gotree := fs.String("gotree", "", "gotree binary")
 	tmp := fs.String("tmp", os.TempDir(), "scratch dir")
 	arg := fs.String("arg", "", "extra argument")
+	repo := fs.String("repo", "/repo", "repository under test")
+	outdir := fs.String("out", "", "output directory (gen-tables)")
 	fs.Parse(os.Args[2:])
+	if prop == "gen-tables" {
+		genTables(*repo, *outdir)
+		return
+	}
 	run, ok := runners[prop]
 	if !ok {
 		fmt.Fprintln(os.Stderr, "unknown property", prop)
@@ -38,6 +39,20 @@ func main() {
 	}
 	w := bufio.NewWriterSize(os.Stdout, 1<<20)
 	defer w.Flush()
-	c := &core.Ctx{G: core.NewG(*seed), Seed: *seed, Tier: *tier, W: w, Gotree: *gotree, Tmp: *tmp, Arg: *arg}
+	c := &core.Ctx{G: core.NewG(*seed), Seed: *seed, Tier: *tier, W: w, Gotree: *gotree, Tmp: *tmp, Arg: *arg, Repo: *repo}
 	run(c)
+}
+
+func genTables(repo, out string) {
+	os.MkdirAll(out, 0755)
+	failed := false
+	for name, g := range tableGens {
+		if err := g(repo, out); err != nil {
+			fmt.Fprintf(os.Stderr, "table generator %s: %v\n", name, err)
+			failed = true
+		}
+	}
+	if failed {
+		os.Exit(1)
+	}
 }
